@@ -378,3 +378,6 @@ def _known_unstarted(sub, case, fail):
 
 
 KNOWN = {"cache-unstarted-input": _known_unstarted}
+
+# cases at scale (see pv/scale.py)
+RULE += scale.RULE
